@@ -75,8 +75,8 @@ func worldC12(w *World) {
 		c := &shimCall{Idx: i}
 		c.Kind = []string{"data", "close", "poll", "data", "close"}[t.Choice(5, "kind")]
 		c.Sess = t.Choice(nSess, "sess")
-		c.Arg = []string{"valid", "valid", "valid", "unknown", "malformed", "empty", "oddmsg"}[t.Choice(7, "arg")]
-		if c.Arg == "oddmsg" && c.Kind != "data" {
+		c.Arg = []string{"valid", "valid", "valid", "unknown", "malformed", "empty", "oddmsg", "mixedbatch"}[t.Choice(8, "arg")]
+		if (c.Arg == "oddmsg" || c.Arg == "mixedbatch") && c.Kind != "data" {
 			c.Arg = "valid"
 		}
 		// many calls at the same instant, some later
@@ -86,6 +86,9 @@ func worldC12(w *World) {
 	nb := 0
 	if backendCloses {
 		nb = t.Range(0, 14, "bmsgs")
+		if t.Rare(1, 3, "nomsgs") {
+			nb = 0 // the backend closes without having sent anything
+		}
 	}
 	bcloseAt := []time.Duration{0, time.Millisecond, 60 * time.Millisecond, 3 * time.Second}[t.Choice(4, "bcloseat")]
 	var mu sync.Mutex
@@ -173,6 +176,9 @@ func worldC12(w *World) {
 						body = []byte(`{"id": "` + id + `", "msg": `)
 					} else if c.Arg == "empty" {
 						body = nil
+					} else if c.Arg == "mixedbatch" {
+						// a batch whose first entry names this session and whose second names no session
+						body = []byte(`[{"id":"` + id + `","msg":"first"},{"id":"` + []string{"9999", "", "nosuch"}[c.Idx%3] + `","msg":"second"}]`)
 					} else if c.Arg == "oddmsg" {
 						// well-formed JSON for a live session whose message is not a string
 						// or a one-element array of a string
@@ -282,7 +288,10 @@ func worldC12(w *World) {
 			if c.RetAt-c.InvAt > 5*time.Minute {
 				w.Violation("unanswered", "a shim call was only answered after more than five simulated minutes | %s returned after %v", name, c.RetAt-c.InvAt)
 			}
-			if (c.Arg == "unknown" || c.Arg == "malformed" || c.Arg == "empty") && c.Status != 400 {
+			if c.Arg == "mixedbatch" {
+				w.Probe("batch_with_a_bad_session_entry")
+			}
+			if (c.Arg == "unknown" || c.Arg == "malformed" || c.Arg == "empty" || c.Arg == "mixedbatch") && c.Status != 400 {
 				w.Violation("rejected", "a call with an unknown session ID or malformed body was not rejected with 400 | %s: %d", name, c.Status)
 			}
 			if r, ok := closeRet[c.Sess]; ok && c.Arg == "valid" && c.Invoke > r && c.Status != 400 {
@@ -290,10 +299,10 @@ func worldC12(w *World) {
 			}
 			// (only when the backend had sent nothing before closing: with undelivered
 			// messages queued the relay may not have read as far as the close yet)
-			if backendCloses && nb == 0 && c.Sess == 0 && c.Kind == "data" && (c.Arg == "valid" || c.Arg == "oddmsg") && sessions[0].bclosedAt > 0 && c.InvAt > sessions[0].bclosedAt+2*time.Second {
+			if backendCloses && nb == 0 && c.Sess == 0 && c.Kind == "data" && (c.Arg == "valid" || c.Arg == "oddmsg") && sessions[0].bclosedAt > 0 && c.InvAt > sessions[0].bclosedAt+time.Second {
 				w.Probe("data_after_backend_closed")
 				if c.Status != 400 {
-					w.Violation("rejected", "a data call on a session whose backend had closed the websocket seconds before was not rejected with 400 | %s at %v (backend closed at %v): %d", name, c.InvAt, sessions[0].bclosedAt, c.Status)
+					w.Violation("rejected", "a data call on a session whose backend had closed the websocket a second or more before was not rejected with 400 | %s at %v (backend closed at %v): %d", name, c.InvAt, sessions[0].bclosedAt, c.Status)
 				}
 			}
 			if c.At == 0 {
